@@ -233,6 +233,18 @@ def _oracle_routes(f, pts, grid):
         gj = f.grid_jacobian(g1)
         if not close(gj[(0,) * n], J, sc):
             return 'grid_jacobian at %s = %s differs from the derivative of the map %s' % (tuple(x), np.asarray(gj[(0,) * n]).tolist(), J.tolist())
+    # scattered routes: a 2-D coordinate array in Fortran order / as a transposed view gives the values of its C-ordered copy
+    if len(pts) >= 2:
+        Qs = [np.array([[p[e] for p in pts[:2]], [p[e] for p in pts[:2][::-1]], [pts[0][e], pts[0][e]]]) for e in range(n)]     # (3, 2)
+        ref = np.asarray(f.pointwise_eval(tuple(np.ascontiguousarray(q) for q in Qs)))
+        refj = np.asarray(f.pointwise_jacobian(tuple(np.ascontiguousarray(q) for q in Qs)))
+        for lay, mk in (('Fortran-ordered', np.asfortranarray), ('transposed view', lambda q: np.ascontiguousarray(q.T).T)):
+            got = np.asarray(f.pointwise_eval(tuple(mk(q) for q in Qs)))
+            gotj = np.asarray(f.pointwise_jacobian(tuple(mk(q) for q in Qs)))
+            if got.shape != ref.shape or not np.array_equal(got, ref):
+                return 'pointwise_eval with %s (3,2) coordinate arrays = %s differs from the same points in a C-ordered copy = %s' % (lay, got.tolist(), ref.tolist())
+            if gotj.shape != refj.shape or not np.array_equal(gotj, refj):
+                return 'pointwise_jacobian with %s (3,2) coordinate arrays differs from the same points in a C-ordered copy' % lay
     # grid
     GV = f.grid_eval(grid)
     GJ = f.grid_jacobian(grid)
@@ -289,13 +301,16 @@ def dyadic(rng, shape, lo=-16, hi=17, den=8.0):
 DTYPES = [np.float64, np.float64, np.float64, np.int64, np.int32, np.float32]
 
 
-def rand_func(rng, sdim, kind=None, vshape=None, dtype=None):
+def rand_func(rng, sdim, kind=None, vshape=None, dtype=None, scale=None):
     """random spline / NURBS function; coefficient (and weight) arrays of dtype float64 / int64 / int32 / float32 —
     the constructors keep the dtype; all values are exactly representable in every one of them"""
     from pyiga import bspline, geometry
     kvs = tuple(rand_kv(rng, small=(sdim == 3)) for _ in range(sdim))
     if sdim >= 2 and rng.integers(0, 4) == 0:
         kvs = (kvs[0],) * sdim          # the same number of dofs on every axis (axis mix-ups stay shape-compatible)
+    if scale is not None:
+        # power-of-two rescaling of the parameter domain: knots (and the points drawn from them) stay exact doubles
+        kvs = tuple(bspline.KnotVector(kv.kv * 2.0 ** scale, kv.p) for kv in kvs)
     N = tuple(kv.numdofs for kv in kvs)
     kind = kind or str(rng.choice(['bsp', 'bsp', 'nurbs']))
     if dtype is None:
@@ -516,6 +531,15 @@ def run(ctx):
     for sdim in (1, 2, 3):
         for _ in range(nfun[sdim - 1]):
             funcs.append(rand_func(rng, sdim))
+    # maps on rescaled parameter domains (2^-40 ... 2^20: spans down to ~2e-13 and up to ~1e6), all routes
+    SCALES = [-40, -36, -30, -20, -10, 10, 20]
+    rescaled = []
+    for k in range(21 if ctx.tier == 'quick' else 140):
+        g = rand_func(rng, 1 + k % 3, None, [(), (2,), (3,)][int(rng.integers(0, 3))], dtype=np.float64, scale=SCALES[k % len(SCALES)])
+        g._verif_scale = SCALES[k % len(SCALES)]
+        rescaled.append(g)
+        ctx.count('parameter domain scaled by 2^%d' % SCALES[k % len(SCALES)])
+    funcs += rescaled
     # library geometries as additional subjects
     funcs += [geometry.unit_square(2), geometry.unit_cube(num_intervals=2), geometry.quarter_annulus(0.5, 1.25),
               geometry.bspline_quarter_annulus(), geometry.twisted_box(), geometry.circular_arc(1.25, 2.0),
@@ -563,6 +587,25 @@ def run(ctx):
                 P2 = tuple(np.stack([p, p[::-1]]) for p in P)
                 add('pweval %s %s %d' % (fd, info_table(f.kvs, P2, 0), 2 * npt),
                     (lambda: f.pointwise_eval(P2).reshape((2 * npt,) + f.coeffs.shape[n:])), ('pweval', f, P2))
+        # scattered routes with ndim >= 2 coordinate arrays in Fortran order / as transposed or strided views (all coordinate
+        # arrays of one call have the same logical shape): the result belongs to the points in LOGICAL (C) index order
+        if with_bd:
+            k3 = 3
+            Q = [np.array([rand_coord(rng, f.kvs[n - 1 - e], k3), rand_coord(rng, f.kvs[n - 1 - e], k3)]) for e in range(n)]   # (2, 3)
+            def layouts(q):
+                big = np.zeros((2, 2 * k3 + 1)); big[:, 1::2] = q
+                big3 = np.zeros((4, k3)); big3[::2, :] = q
+                return {'F': np.asfortranarray(q), 'T': np.ascontiguousarray(q.T).T, 'strided': big[:, 1::2], 'rows': big3[::2, :],
+                        'reversed': np.ascontiguousarray(q[::-1, ::-1])[::-1, ::-1]}
+            name = ['F', 'T', 'strided', 'rows', 'reversed'][int(rng.integers(0, 5))]
+            for lay in ('F', name) if name != 'F' else ('F', 'T'):
+                Pv = tuple(layouts(q)[lay] for q in Q)
+                osh = tuple(f.coeffs.shape[n:]) if not nb else (() if f._isscalar else (f.coeffs.shape[-1] - 1,))
+                add('pweval %s %s %d' % (fd, info_table(f.kvs, Q, 0), 2 * k3),
+                    (lambda Pv=Pv: np.asarray(f.pointwise_eval(Pv)).reshape((2 * k3,) + osh)), ('pweval', f, Q))
+                add('pwjac %s %s %d' % (fd, info_table(f.kvs, Q, 1), 2 * k3),
+                    (lambda Pv=Pv: np.asarray(f.pointwise_jacobian(Pv)).reshape((2 * k3,) + osh + (n,))), ('pwjac', f, Q))
+                ctx.count('scattered routes, coordinate arrays in layout %s' % lay)
         # generic boundary functions (_BoundaryFunction): every axis/side of one parent, built directly and through
         # boundary(name) of a support-restricted copy (the generic path); single-point, grid and Jacobian routes
         if with_bd and n >= 2 and not matrix_valued:
@@ -1364,6 +1407,45 @@ def oracle_quarter_annulus(r1, r2):
     return None
 
 
+def oracle_rescaling(g, sc, rng):
+    """reparametrisation invariance (model-free): g lives on knot vectors scaled by 2^sc; the same coefficients on the unscaled
+    knot vectors give the same values at the unscaled points, Jacobians scale by 2^-sc, Hessians by 2^-2sc (power-of-two scalings
+    commute with every floating-point operation of the evaluation, so agreement is expected to the last bits)"""
+    from pyiga import bspline, geometry
+    n = len(g.kvs)
+    kv0 = tuple(bspline.KnotVector(kv.kv * 2.0 ** (-sc), kv.p) for kv in g.kvs)
+    if is_nurbs(g):
+        twin = geometry.NurbsFunc(kv0, g.coeffs.copy(), None, premultiplied=True)
+        twin._isscalar = g._isscalar
+    else:
+        twin = bspline.BSplineFunc(kv0, g.coeffs.copy())
+    S = 2.0 ** sc
+
+    def same(a, b, what):
+        a = np.asarray(a, dtype=float); b = np.asarray(b, dtype=float)
+        if a.shape != b.shape or not np.allclose(a, b, rtol=1e-11, atol=1e-13 * (1.0 + np.abs(b).max())):
+            return '%s on the domain scaled by 2^%d = %s, on the unscaled domain = %s' % (what, sc, a.ravel()[:6].tolist(), b.ravel()[:6].tolist())
+        return None
+    for _ in range(2):
+        grid = tuple(np.array(rand_coord(rng, g.kvs[i], 3)) for i in range(n))
+        grid0 = tuple(a / S for a in grid)
+        d = same(g.grid_eval(grid), twin.grid_eval(grid0), 'grid_eval at %s' % [a.tolist() for a in grid]) \
+            or same(np.asarray(g.grid_jacobian(grid)) * S, twin.grid_jacobian(grid0), 'grid_jacobian * 2^sc')
+        if d: return d
+        if g.coeffs.ndim - n <= 1:
+            d = same(np.asarray(g.grid_hessian(grid)) * S * S, twin.grid_hessian(grid0), 'grid_hessian * 4^sc')
+            if d: return d
+        P = tuple(np.array(rand_coord(rng, g.kvs[n - 1 - e], 4)) for e in range(n))
+        P0 = tuple(a / S for a in P)
+        d = same(g.pointwise_eval(P), twin.pointwise_eval(P0), 'pointwise_eval at %s' % [a.tolist() for a in P]) \
+            or same(np.asarray(g.pointwise_jacobian(P)) * S, twin.pointwise_jacobian(P0), 'pointwise_jacobian * 2^sc')
+        if d: return d
+        x = tuple(float(a[0]) for a in P)
+        d = same(g(*x), twin(*[t / S for t in x]), '__call__%s' % (x,))
+        if d: return d
+    return None
+
+
 def oracle_checks(ctx, funcs):
     from pyiga import bspline, geometry, utils
     rng = np.random.default_rng(ctx.seed + 1007)
@@ -1379,6 +1461,15 @@ def oracle_checks(ctx, funcs):
             return fn(*a, **kw)
         except Exception as ex:
             return '%s raised %s: %s' % (getattr(fn, '__name__', 'oracle'), type(ex).__name__, str(ex)[:200])
+    # maps on rescaled parameter domains: every one against the exact definition and against its unscaled twin
+    for f in [g for g in funcs if hasattr(g, '_verif_scale')]:
+        n = len(f.kvs)
+        pts = [tuple(rand_coord(rng, f.kvs[n - 1 - e], 1)[0] for e in range(n)) for _ in range(3)]
+        grid = tuple(np.array(rand_coord(rng, f.kvs[k], 2 if (k == 0 or n < 3) else 1)) for k in range(n))
+        for d in (oracle_routes(f, pts, grid), safe(oracle_rescaling, f, f._verif_scale, rng)):
+            count += 1
+            if d:
+                report('geo-oracle:rescaled-domain', 'parameter domain scaled by 2^%d: %s' % (f._verif_scale, d), describe(('rescaled', f, pts, grid)))
     idx = rng.permutation(len(funcs))[:nor]
     for i in idx:
         f = funcs[i]
